@@ -16,5 +16,5 @@ echo "== demo WITHOUT change (expect ok)"
 go test -vet=off -count=1 -timeout 5m -run "$re" ./$pkg 2>&1 | tail -3
 git apply /tmp/seed-$key.diff
 echo "== existing tests WITH change (demo excluded)"
-go test -c -vet=off -o /tmp/seedtest-$key.test ./$pkg && (cd ./$pkg && unshare -n sh -c "ip link set lo up 2>/dev/null; /tmp/seedtest-$key.test -test.count=1 -test.timeout=10m -test.skip '$re|TestUDPPeerIPv6_Addresses|TestClientReconnectOnFailedRead'" 2>&1 | tail -5)
+go test -c -vet=off -o /tmp/seedtest-$key.test ./$pkg && (cd ./$pkg && unshare -n sh -c "ip link set lo up 2>/dev/null; /tmp/seedtest-$key.test -test.count=1 -test.timeout=5m -test.skip '$re|TestUDPPeerIPv6_Addresses|TestClientReconnectOnFailedRead|TestCodecConnWriteNext|TestCodecConnAsyncWriteNext'" 2>&1 | tail -5)
 rm -f /tmp/seedtest-$key.test
